@@ -709,10 +709,12 @@ pub fn build(quick: bool) -> Check {
             Box::new(Transient::new(quick)),
             Box::new(Small),
             Box::new(MidSizes),
+            Box::new(super::context::BoundaryCells { prop: "C04", bin: false }),
+            Box::new(super::context::BoundaryCells { prop: "C04", bin: true }),
             Box::new(LargeInContext {
                 bigs: if quick { vec![(false, 2 << 20), (false, MAXP), (true, MAXP + 1)] } else { vec![(false, 2 << 20), (false, MAXP - 1), (false, MAXP), (false, MAXP + 1), (false, 2 * MAXP), (true, 2 << 20), (true, MAXP - 1), (true, MAXP), (true, MAXP + 1)] },
             }),
         ],
-        required: vec!["large_in_context", "transient_deviations", "multi_packet_messages", "empty_closing_packets", "mid_size_cells"],
+        required: vec!["boundary_cells", "large_in_context", "transient_deviations", "multi_packet_messages", "empty_closing_packets", "mid_size_cells"],
     }
 }
